@@ -7,7 +7,8 @@ import random
 from props.c09 import LEQ, REL, apply_op, dump_state, covers, next_elems
 
 ORDER_NOTE = ('streams run in the order: corpus, the small targeted streams (exhaustive-order/-grown/-nested/-desc/-cfg/-cd), '
-              'seeded random + different-leq_func cases, the big product stream (exhaustive)')
+              'script-exh, seeded random + different-leq_func cases, the seeded scripted streams (script/history/chain/equal/'
+              'empty-disjoint/big-cd), the big product stream (exhaustive)')
 RULE = ('case = (order in {subset of a bit set, divisibility}, two operand posets (element list, cache on/off, with/without '
         'a correct children_dict, warm-up query history), operator in {&,|,^,-}); both real POSets are built, the warm-up '
         'histories are run, the operator is applied (twice: the two results are observed in two different query orders), '
@@ -16,7 +17,14 @@ RULE = ('case = (order in {subset of a bit set, divisibility}, two operand poset
         'Fresh value over the combined elements; the result\'s element list is compared with the set-theoretic '
         'combination in first-then-second order; afterwards both operands are observed completely (element list, every '
         'query, private caches) and compared with what they were before; non-trivial = both operands cache, at least '
-        'one warm-up query was made, the result has two comparable elements; distinct = distinct case')
+        'one warm-up query was made, the result has two comparable elements; distinct = distinct case. Scripted cases '
+        '(streams script*, history, chain, equal, empty-disjoint, big-cd) add, AFTER the operator, a script of steps on the '
+        'result and on the operands: queries whose returned value is vandalised in place when it is a mutable set/list/'
+        'dict (hostile caller), the *_dict properties, fill_up_*, add (with and without cache filling) / remove / del; '
+        'then result, operands and the result again are observed completely; every answer of each of the three posets '
+        'must be the Lean Fresh value for that poset\'s CURRENT elements (the operands\' own histories may contain '
+        'add(fill_up_cache=False)/remove/del/remove+add-back, operands may be results of operators to depth 3, the two '
+        'operands may be the same object)')
 _SCOPE = ('operand element lists: subsets of the 8 subsets of a 3-set listed ascending (second operand also descending '
           'where stated); pairs (A,B) up to simultaneous permutation of the 3 atoms; warm-up alphabet on an operand '
           'with n elements: leq(i,j) all n^2 pairs, descendants/ancestors/children/parents(i) all i, fill_up_caches; '
@@ -35,7 +43,10 @@ EXHAUSTIVE = {
              'the last element added), the other cold or filled, for |A|+|B| <= 4; larger pairs: grown-from-empty against '
              'filled (both ways) and against grown-from-empty. '
              'exhaustive-nested: N = X|Y or X&Y (|X|,|Y| <= 2, both filled) against a plain poset P (cold or filled) whose '
-             'element list equals N\'s or extends it by one element, P op N and N op P',
+             'element list equals N\'s or extends it by one element, P op N and N op P. script-exh: every pair with '
+             '|A|,|B| <= 2, operands cold or filled, 4 operators, every script of a fixed menu (all hostile queries + *_dict on '
+             'the result; on both operands; one add(filled) / add(unfilled) / remove on A, on B, on the result; add(filled) on '
+             'one of the three posets followed by add(unfilled) on another - shared cache objects), and A op A on one object',
     'thorough': _SCOPE + 'both operands caching, all pairs with |A|,|B| <= 3: |A|+|B| <= 3: <= 3 operations on each '
                 'operand; |A|+|B| = 4: <= 2 on each; larger: <= 1 on each, or <= 2 on one operand while the other is cold '
                 'or completely filled. Pairs with an operand of 4 elements and |A|+|B| <= 6: <= 1 operation on one operand '
@@ -49,14 +60,16 @@ EXPLANATION = ('the result of an operator is pinned uniquely (element list = com
                '(elements), combine_inv (every cache entry of the result is the Fresh value when the operands satisfy the '
                'C09 invariant, for all four cache-flag combinations), combine_history_independent (hence every later '
                'history of queries and mutations on the result answers as Fresh, by Fca.C09.history_independent; FULL), '
-               'combine_returns (no exception), operands_unchanged. The driver also runs the verified checker invCheck on both '
+               'combine_returns (no exception), operands_unchanged, combine_after_histories / combine_chain (operands with '
+               'arbitrary histories, chained operators), combine_objects_independent (result and operands independent '
+               'afterwards). The driver also runs the verified checker invCheck on both '
                'operand states after the warm-up (certifying the hypothesis Inv a, Inv b, also for children_dict starts) '
                'and on the result. Comparison of the result\'s private caches with the model state is diagnostic only '
                '(histogram keys state:*)')
 ASSUMPTIONS = ['operand elements pairwise distinct and hashable; leq_func is a partial order on all elements used and '
                'returns a Python bool (the type sniffing of _combine_caches raises TypeError otherwise)',
-               'warm-up histories consist of in-range queries and fill_up_caches only (mutations of an operand before '
-               'the operator are C09\'s subject: whatever state satisfies the C09 invariant is covered by the theorem)',
+               'operand histories consist of in-range queries, fill_up_*, add/remove/del (Fca.C10.combine_after_histories '
+               'covers every valid history; the product stream uses queries and fill_up_caches only)',
                'a children_dict passed to an operand\'s constructor is the true cover relation of its elements',
                '"same comparison" = the same function object (the operators assert identity of leq_func)']
 TRUSTED = ['set/dict iteration orders inside _combine_caches are not modelled as parameters: no observable of the result '
@@ -95,7 +108,7 @@ def final_elems(spec):
 
 
 def uses_cache(spec):
-    return bool(spec['combine']['a']['use_cache']) if spec.get('combine') else bool(spec['use_cache'])
+    return uses_cache(spec['combine']['a']) if spec.get('combine') else bool(spec['use_cache'])
 
 
 def post_ops(n, sels):
@@ -174,6 +187,8 @@ def _apply(oper, A, B):
 
 
 def impl(c):
+    if 'script' in c:
+        return impl_script(c)
     order, oper = c['order'], c['oper']
     leqa = LEQ[order]
     leqb = leqa if c.get('same_leq', True) else _LEQ_OTHER[order]
@@ -236,6 +251,188 @@ def impl(c):
     return out
 
 
+
+# ------------------------------------------------------------------------------------------ scripted cases
+# A scripted case carries, besides the two operands and the operator, a `script`: a list of steps
+# [target, op, hostile] executed AFTER the operator, target in {'r' (the result), 'a', 'b' (the operands)},
+# op a C09 operation (query, fill_up_*, add/del/remove) or ['dict', relation, n] (the `<relation>_dict` property of a
+# poset with n elements), hostile = mutate the returned value in place when it is a mutable set/list/dict.  After
+# the script the result, both operands and the result again are observed completely.  Every answer of every object
+# must be the Fresh value for that object's CURRENT elements (Lean: `post` on the result state, `a_after`/`b_after`
+# on the operand states - the three objects are independent in the model, as the property demands of the code).
+DICTS = {'descendants': 'descendants_dict', 'ancestors': 'ancestors_dict', 'children': 'children_dict',
+         'parents': 'parents_dict'}
+
+
+def _vandalise(v):
+    """what a hostile but legal caller may do with a returned value"""
+    if isinstance(v, set):
+        v.clear()
+        v.add(997)
+    elif isinstance(v, list):
+        del v[:]
+        v.append(997)
+    elif isinstance(v, dict):
+        for k in list(v):
+            _vandalise(v[k])
+            v[k] = frozenset([997])
+        v[998] = frozenset()
+
+
+def step(P, op, hostile):
+    """execute one script step on a real POSet; returns the list of canonical answers it stands for"""
+    nm = op[0]
+    try:
+        if nm == 'dict':
+            d = getattr(P, DICTS[op[1]])
+            out = [sorted(int(v) for v in d[i]) for i in range(op[2])]
+            if hostile:
+                _vandalise(d)
+            return out
+        if nm == 'leq':
+            return [bool(P.leq_elements(op[1], op[2]))]
+        if nm in ('tops', 'bottoms'):
+            raw = getattr(P, nm)
+            out = {'l': [int(v) for v in raw]}
+        elif nm in ('join', 'meet'):
+            r = getattr(P, nm)(list(op[1]))
+            return [{'o': None if r is None else int(r)}]
+        elif nm in REL:
+            raw = getattr(P, nm)(op[1])
+            out = sorted(int(v) for v in raw)
+        else:
+            return [apply_op(P, op, None, None)]
+        if hostile:
+            _vandalise(raw)
+        return [out]
+    except (IndexError, KeyError, ValueError, TypeError, AssertionError, AttributeError) as e:
+        return [{'err': type(e).__name__}] * (op[2] if nm == 'dict' else 1)
+
+
+def lean_ops(op):
+    """the C09 operations a script step stands for"""
+    if op[0] == 'dict':
+        return [[op[1], i] for i in range(op[2])]
+    return [op]
+
+
+def script_plan(c):
+    """per target: the Lean operation sequence (script steps, then the final observation(s)) and the final elements"""
+    E = {'a': final_elems(c['a'])}
+    E['b'] = E['a'] if c.get('same_object') else final_elems(c['b'])
+    E['r'] = spec_elems(c['oper'], E['a'], E['b'])
+    seq = {'r': [], 'a': [], 'b': []}
+    for tgt, op, _h in c['script']:
+        seq[tgt] += lean_ops(op)
+        E[tgt] = next_elems(E[tgt], op)
+    for tgt in _final_order(c):
+        seq[tgt] += full_ops(len(E[tgt]))
+    return seq, E
+
+
+def _final_order(c):
+    return ('r', 'a', 'r') if c.get('same_object') else ('r', 'a', 'b', 'r')
+
+
+def impl_script(c):
+    order, oper = c['order'], c['oper']
+    leqf = LEQ[order]
+    out, objs = {}, {}
+    for nm in ('a', 'b'):
+        if nm == 'b' and c.get('same_object'):
+            objs['b'] = objs.get('a')
+            out['b'] = out['a']
+            continue
+        try:
+            P, outs = _build(order, c[nm], leqf)
+        except Exception as e:
+            out[nm] = {'init_err': type(e).__name__}
+            continue
+        objs[nm] = P
+        out[nm] = {'outs': outs}
+    if 'init_err' in out['a'] or 'init_err' in out['b']:
+        return out
+    R, err = _apply(oper, objs['a'], objs['b'])
+    if err is not None:
+        out['res'] = {'err': err}
+        return out
+    objs['r'] = R
+    elems = list(R.elements)
+    out['res'] = {'elems': [int(x) for x in elems], 'use_cache': bool(getattr(R, '_use_cache', False))}
+    outs = {'r': [], 'a': [], 'b': []}
+    for tgt, op, h in c['script']:
+        outs[tgt] += step(objs[tgt], op, h)
+    for tgt in _final_order(c):
+        P = objs[tgt]
+        outs[tgt] += [ask(P, o) for o in full_ops(len(P))]
+    out['script'] = outs
+    out['final'] = {k: [int(x) for x in objs[k]._elements] for k in ('r', 'a', 'b')}
+    return out
+
+
+def requests_script(c):
+    seq, _ = script_plan(c)
+    b = c['a'] if c.get('same_object') else c['b']
+    return [dict(op='C10.run', order=c['order'], oper=c['oper'], same_leq=True,
+                 a=_operand_req(c['order'], c['a']), b=_operand_req(c['order'], b),
+                 post=seq['r'], post2=[], a_after=seq['a'], b_after=seq['b'], state=False)]
+
+
+def _verdict_script(c, io, rep):
+    r = rep[0]
+    oper = c['oper']
+    for nm in ('a', 'b'):
+        mi, ii = r[nm], io[nm]
+        if 'init_err' in mi or 'init_err' in ii:
+            if mi.get('init_err') != ii.get('init_err'):
+                return ('correspondence', 'init', f'constructor of operand {nm}: impl {ii} model {mi}')
+            return None
+        if ii['outs'] != mi['outs']:
+            if not mi['inv']:
+                return ('harness', 'operand-inv', f'operand {nm}: model state fails invCheck')
+            return ('correspondence', 'warmup', f'history of operand {nm}: impl {ii["outs"]} model {mi["outs"]}')
+        if not mi['inv']:
+            return ('harness', 'operand-inv', f'operand {nm}: the model state after its history fails invCheck')
+    seq, E = script_plan(c)
+    EA = final_elems(c['a'])
+    EB = EA if c.get('same_object') else final_elems(c['b'])
+    want = spec_elems(oper, EA, EB)
+    mr, ir = r['res'], io['res']
+    if 'err' in ir:
+        return ('property', 'result', f'{oper} raised {ir["err"]} (operands {EA}, {EB}); the property demands the poset '
+                                      f'over {want}' + (f'; the model raises {mr["err"]} too' if 'err' in mr else ''))
+    if ir['elems'] != want:
+        return ('property', 'elements', f'{oper}: elements {ir["elems"]}, the combination in first-then-second order is {want}')
+    if 'err' in mr:
+        return ('correspondence', 'result', f'{oper}: the model raises {mr["err"]}, the implementation returns normally')
+    if mr['elems'] != want or not mr['inv'] or not mr['post_ok'] or not mr['model_eq']:
+        return ('harness', 'script-model', f'model result: elems {mr["elems"]} (want {want}) inv {mr["inv"]} '
+                                           f'post_ok {mr["post_ok"]} model_eq {mr["model_eq"]}')
+    for nm in ('a', 'b'):
+        if seq[nm] and not (r[nm].get('after_ok') and r[nm].get('after_eq')):
+            return ('harness', 'script-model', f'model operand {nm} after the operator: ok {r[nm].get("after_ok")} '
+                                               f'eq {r[nm].get("after_eq")}')
+    got = io['script']
+    if got['r'] != mr['fresh']:
+        return ('property', 'script-result', f'{oper}: the result (elements now {E["r"]}) does not answer like a fresh '
+                                             f'poset over its elements after the script {c["script"]}: '
+                + _diff(seq['r'], got['r'], mr['fresh']))
+    for nm in ('a', 'b'):
+        if nm == 'b' and c.get('same_object'):
+            continue
+        exp = r[nm].get('after_fresh', [])
+        if got[nm] != exp:
+            return ('property', 'script-operand', f'after {oper} and the script {c["script"]} operand {nm} (elements now '
+                                                  f'{E[nm]}) does not answer like a fresh poset over its elements: '
+                    + _diff(seq[nm], got[nm], exp))
+    for k in (('r', 'a') if c.get('same_object') else ('r', 'a', 'b')):
+        if io['final'][k] != E[k]:
+            return ('property', 'script-elements', f'elements of {k} after the script: {io["final"][k]}, expected {E[k]}')
+    if ir['use_cache'] != mr['use_cache']:
+        return ('correspondence', 'flag', f'use_cache of the result: impl {ir["use_cache"]} model {mr["use_cache"]}')
+    return None
+
+
 # ------------------------------------------------------------------------------------------ Lean side
 def _operand_req(order, spec, st=None):
     if spec.get('combine'):
@@ -254,6 +451,8 @@ REQUESTS_NEED_IMPL = True
 
 
 def requests(c, io=None):
+    if 'script' in c:
+        return requests_script(c)
     n = len(spec_elems(c['oper'], final_elems(c['a']), final_elems(c['b'])))
     post, post2 = post_ops(n, case_sels(c, n))
     return [dict(op='C10.run', order=c['order'], oper=c['oper'], same_leq=bool(c.get('same_leq', True)),
@@ -350,7 +549,7 @@ def _verdict(c, io, rep):
 
 
 def judge(c, io, rep):
-    v = _verdict(c, io, rep)
+    v = _verdict_script(c, io, rep) if 'script' in c else _verdict(c, io, rep)
     if v is None:
         return dict(ok=True)
     return dict(ok=False, kind=v[0], where=v[1], detail=v[2])
@@ -359,7 +558,7 @@ def judge(c, io, rep):
 def nontrivial(c):
     if not (uses_cache(c['a']) and uses_cache(c['b'])):
         return False
-    if not (c['a']['ops'] or c['b']['ops'] or c['a'].get('combine') or c['b'].get('combine')):
+    if not (c['a']['ops'] or c['b']['ops'] or c['a'].get('combine') or c['b'].get('combine') or c.get('script')):
         return False
     leq = LEQ[c['order']]
     E = spec_elems(c['oper'], final_elems(c['a']), final_elems(c['b']))
@@ -373,7 +572,8 @@ def _okey(sp):
 
 
 def key(c):
-    return [c['order'], c['oper'], bool(c.get('same_leq', True)), _okey(c['a']), _okey(c['b'])]
+    return [c['order'], c['oper'], bool(c.get('same_leq', True)), _okey(c['a']), _okey(c['b']),
+            bool(c.get('same_object')), c.get('script')]
 
 
 def branch(c, io, rep):
@@ -384,6 +584,14 @@ def branch(c, io, rep):
         if any(o[0] == 'add' for o in c[k]['ops']):
             out.append('operand-grown-by-add:' + k)
     out.append('warm:%s+%s' % tuple(str(len(c[k]['ops'])) if len(c[k]['ops']) < 3 else '3..' for k in ('a', 'b')))
+    for k in ('a', 'b'):
+        if any(o[0] in ('del', 'remove') or (o[0] == 'add' and not o[2]) for o in c[k]['ops']):
+            out.append('operand-history-with-removal-or-unfilled-add:' + k)
+    if c.get('same_object'):
+        out.append('same-object-operands')
+    for tgt, op, h in c.get('script', []):
+        kind = 'mutate' if op[0] in ('add', 'del', 'remove') else ('hostile' if h else 'query')
+        out.append('script:%s:%s' % (kind, {'r': 'result', 'a': 'operand', 'b': 'operand'}[tgt]))
     r = rep[0] if rep else {}
     ir, mr = io.get('res', {}), r.get('res', {})
     if 'err' in ir:
@@ -431,6 +639,27 @@ def _drop_elem(spec, i):
 
 
 def shrink(c):
+    if 'script' in c:
+        sc = c['script']
+        for i in range(len(sc)):
+            yield dict(c, script=sc[:i] + sc[i + 1:])
+        for i, (tgt, op, h) in enumerate(sc):
+            if h:
+                yield dict(c, script=sc[:i] + [[tgt, op, 0]] + sc[i + 1:])
+        if not any(st[1][0] in ('add', 'del', 'remove', 'dict') for st in sc):
+            # no step depends on the sizes: the operands' own histories may shrink
+            for nm in ('a', 'b'):
+                if c.get('same_object') and nm == 'b':
+                    continue
+                ops = c[nm]['ops']
+                if not c[nm].get('combine') and not any(o[0] in ('add', 'del', 'remove') for o in ops):
+                    for i in range(len(ops)):
+                        d = dict(c)
+                        d[nm] = dict(c[nm], ops=ops[:i] + ops[i + 1:])
+                        if c.get('same_object'):
+                            d['b'] = d['a']
+                        yield d
+        return
     for nm in ('a', 'b'):
         ops = c[nm]['ops']
         for i in range(len(ops)):
@@ -739,6 +968,230 @@ def _random(tier, rng, boost):
                     sels=sels, state=True, same_leq=not malformed)
 
 
+
+# ------------------------------------------------------------------------------------------ scripted streams
+_UNIV = {'subset': [list(range(16)), list(range(16)), list(range(32))],
+         'divides': [list(range(1, 31)), [1, 2, 3, 4, 6, 8, 9, 12, 18, 24, 27, 36, 54, 72, 108, 216],
+                     [2, 3, 4, 5, 6, 8, 10, 12, 15, 20, 30, 60, 7, 14, 21, 42]]}
+
+
+def _rand_query(rng, n):
+    q = rng.random()
+    if q < 0.25:
+        return ['leq', rng.randrange(n), rng.randrange(n)]
+    if q < 0.80:
+        return [rng.choice(REL), rng.randrange(n)]
+    if q < 0.88:
+        return [rng.choice(['tops', 'bottoms'])]
+    return [rng.choice(['join', 'meet']), [rng.randrange(n) for _ in range(rng.randint(0, 3))]]
+
+
+def _rand_mutation(rng, universe, E, cap=13):
+    """a list of 1-2 mutations (2 = the net-zero pair remove + add back)"""
+    absent = [e for e in universe if e not in E]
+    q = rng.random()
+    if (q < 0.45 or not E) and absent and len(E) < cap:
+        return [['add', rng.choice(absent), rng.random() < 0.5]]
+    if not E:
+        return []
+    if q < 0.50:
+        return [['add', rng.choice(E), rng.random() < 0.5]]
+    if q < 0.72:
+        return [['remove', rng.choice(E)]]
+    if q < 0.88:
+        return [['del', rng.randrange(len(E))]]
+    e = rng.choice(E)
+    return [['remove', e], ['add', e, rng.random() < 0.5]]
+
+
+def _rand_history(rng, universe, E, use_cache, length, mutations=True):
+    """a history of an operand through its public API: queries, fill_up_*, add (with and without cache filling),
+    remove, del, remove + add back"""
+    E, ops = list(E), []
+    for _ in range(length):
+        r = rng.random()
+        if mutations and r < 0.35:
+            new = _rand_mutation(rng, universe, E)
+        elif use_cache and r < 0.43:
+            new = [['fill', rng.choice(['leq', 'desc', 'anc', 'chil', 'par', 'all'])]]
+        elif E:
+            new = [_rand_query(rng, len(E))]
+        else:
+            new = []
+        for op in new:
+            ops.append(op)
+            E = next_elems(E, op)
+    return ops
+
+
+def _rand_spec(rng, order, universe, pool, depth, maxlen=8, p_cache=0.8, p_cd=0.25, hist=8):
+    if depth > 0 and rng.random() < 0.6:
+        a = _rand_spec(rng, order, universe, pool, depth - 1, maxlen, p_cache, p_cd, hist)
+        b = _rand_spec(rng, order, universe, pool, depth - 1, maxlen, p_cache, p_cd, hist)
+        spec = dict(combine=dict(oper=rng.choice(list(OPER)), a=a, b=b), ops=[])
+        spec['ops'] = _rand_history(rng, universe, final_elems(spec), uses_cache(spec), rng.randint(0, 5))
+        return spec
+    E = [x for x in pool if rng.random() < 0.65][:maxlen]
+    rng.shuffle(E)
+    uc = rng.random() < p_cache
+    cd = uc and rng.random() < p_cd
+    return dict(elems=E, use_cache=uc, cd=cd, ops=_rand_history(rng, universe, E, uc, rng.randint(0, hist)))
+
+
+def _rand_script(rng, universe, E, caches, length, p_mut=0.3):
+    """E: {'r': elems, 'a': .., 'b': ..} (a target that must not be used is absent); caches: target -> bool"""
+    E = {k: list(v) for k, v in E.items()}
+    script = []
+    tgts = sorted(E)
+    for _ in range(length):
+        tgt = rng.choice(tgts)
+        n = len(E[tgt])
+        r = rng.random()
+        if r < p_mut:
+            new = [(op, 0) for op in _rand_mutation(rng, universe, E[tgt])]
+        elif r < p_mut + 0.06 and caches[tgt]:
+            new = [(['fill', rng.choice(['leq', 'desc', 'anc', 'chil', 'par', 'all'])], 0)]
+        elif r < p_mut + 0.20:
+            new = [(['dict', rng.choice(REL), n], int(rng.random() < 0.8))]
+        elif n:
+            new = [(_rand_query(rng, n), int(rng.random() < 0.6))]
+        else:
+            new = []
+        for op, h in new:
+            script.append([tgt, op, h])
+            E[tgt] = next_elems(E[tgt], op)
+    return script
+
+
+def _scripted(stream, order, oper, a, b, script, same_object=False):
+    return dict(stream=stream, order=order, oper=oper, a=a, b=(a if same_object else b), script=script,
+                same_object=bool(same_object))
+
+
+def _with_script(rng, stream, order, universe, oper, a, b, length, same_object=False, p_mut=0.3):
+    EA = final_elems(a)
+    EB = EA if same_object else final_elems(b)
+    E = {'r': spec_elems(oper, EA, EB), 'a': EA}
+    caches = {'r': uses_cache(a), 'a': uses_cache(a)}
+    if not same_object:
+        E['b'] = EB
+        caches['b'] = uses_cache(b)
+    return _scripted(stream, order, oper, a, b, _rand_script(rng, universe, E, caches, length, p_mut), same_object)
+
+
+def _scripted_random(tier, rng, boost):
+    """seeded random scripted cases: H2 (hostile callers, aliasing between operands and result), H1 (operands with
+    mutation histories, mixed cache flags, chained operations), H3 (>= 10 elements with children_dict, equal / empty /
+    disjoint operands, the same object on both sides)"""
+    scale = 1 if tier == 'quick' else 20
+    if boost:
+        scale *= 3
+    for k in range(3000 * scale):
+        order = 'subset' if k % 2 == 0 else 'divides'
+        universe = rng.choice(_UNIV[order])
+        pool = rng.sample(universe, rng.randint(0, min(10, len(universe))))
+        oper = rng.choice(list(OPER))
+        kind = k % 6
+        if kind in (0, 1):      # H2: plain operands, query-only histories, long scripts
+            a = _rand_spec(rng, order, universe, pool, 0, hist=5)
+            b = _rand_spec(rng, order, universe, pool, 0, hist=5)
+            yield _with_script(rng, 'script', order, universe, oper, a, b, rng.randint(1, 8))
+        elif kind == 2:         # H1: histories with add(fill=False)/remove/del, mixed cache flags, then the operator
+            a = _rand_spec(rng, order, universe, pool, 0, p_cache=0.65)
+            b = _rand_spec(rng, order, universe, pool, 0, p_cache=0.65)
+            yield _with_script(rng, 'history', order, universe, oper, a, b, rng.randint(0, 2), p_mut=0.0)
+        elif kind == 3:         # H1: chained operations with queries / mutations in between
+            a = _rand_spec(rng, order, universe, pool, 2, maxlen=6, hist=4)
+            b = _rand_spec(rng, order, universe, pool, 1, maxlen=6, hist=4)
+            yield _with_script(rng, 'chain', order, universe, oper, a, b, rng.randint(0, 5))
+        elif kind == 4:         # H3: equal operands (same object / equal lists / same set in another order), empty, disjoint
+            a = _rand_spec(rng, order, universe, pool, 0, hist=5)
+            q = rng.random()
+            if q < 0.3:
+                yield _with_script(rng, 'equal', order, universe, oper, a, a, rng.randint(0, 5), same_object=True)
+                continue
+            EA = final_elems(a)
+            if q < 0.6:
+                EB = list(EA)
+                if q < 0.45:
+                    rng.shuffle(EB)
+            elif q < 0.75:
+                EB = []
+            else:
+                EB = [e for e in universe if e not in EA]
+                rng.shuffle(EB)
+                EB = EB[:rng.randint(1, 6)]
+            uc = rng.random() < 0.8
+            b = dict(elems=EB, use_cache=uc, cd=uc and rng.random() < 0.3,
+                     ops=_rand_history(rng, universe, EB, uc, rng.randint(0, 5), mutations=False))
+            if rng.random() < 0.5:
+                a, b = b, a
+            yield _with_script(rng, 'equal' if q < 0.6 else 'empty-disjoint', order, universe, oper, a, b, rng.randint(0, 5))
+        else:
+            if k % 24 != 5:
+                continue
+            # H3: >= 10 elements, children_dict on at least one operand (no pre-filled leq cache from 10 elements on)
+            big = rng.sample(universe, rng.randint(10, min(14, len(universe))))
+            other = [x for x in big if rng.random() < 0.7] + [x for x in universe if x not in big and rng.random() < 0.1]
+            other = other[:14]
+            rng.shuffle(other)
+            sa = dict(elems=big, use_cache=True, cd=True,
+                      ops=_rand_history(rng, universe, big, True, rng.randint(0, 4), mutations=rng.random() < 0.3))
+            uc = rng.random() < 0.85
+            sb = dict(elems=other, use_cache=uc, cd=uc and rng.random() < 0.5,
+                      ops=_rand_history(rng, universe, other, uc, rng.randint(0, 4), mutations=False))
+            if rng.random() < 0.5:
+                sa, sb = sb, sa
+            yield _with_script(rng, 'big-cd', order, universe, oper, sa, sb, rng.randint(0, 4))
+
+
+def _scripted_exhaustive(level):
+    """small scope, complete: every pair (|A|,|B| <= 2), operands cold or filled, every operator, every script of
+    the menu: all hostile queries on the result / on the operands; one mutation of A, of B, of the result
+    (add with and without cache filling, remove); plus A op A on the same object"""
+    def hostile_all(tgt, n):
+        return [[tgt, ['dict', r, n], 1] for r in REL] + [[tgt, [r, i], 1] for i in range(n) for r in REL] + \
+               [[tgt, ['tops'], 1], [tgt, ['bottoms'], 1]]
+    for A, B in pair_orbits(2, 2):
+        for fa in (False, True):
+            for fb in (False, True):
+                a, b = _plain(A, fa), _plain(B, fb)
+                for oper in OPER:
+                    R = spec_elems(oper, A, B)
+                    El = {'r': R, 'a': A, 'b': B}
+                    menu = [hostile_all('r', len(R)), hostile_all('a', len(A)) + hostile_all('b', len(B))]
+                    for tgt in ('a', 'b', 'r'):
+                        absent = [e for e in U3 if e not in El[tgt]]
+                        if absent:
+                            menu.append([[tgt, ['add', absent[0], True], 0]])
+                            menu.append([[tgt, ['add', absent[-1], False], 0]])
+                        if El[tgt]:
+                            menu.append([[tgt, ['remove', El[tgt][0]], 0]])
+                    # aliasing of cache objects shared by two of the three posets: grow one (caches filled), then
+                    # grow another one without cache filling - it must not see the first one's entries
+                    for t1, t2 in (('a', 'r'), ('r', 'a'), ('b', 'r'), ('r', 'b'), ('a', 'b')):
+                        ab1 = [e for e in U3 if e not in El[t1]]
+                        ab2 = [e for e in U3 if e not in El[t2]]
+                        if ab1 and ab2:
+                            x = ab1[0]
+                            y = next((e for e in reversed(ab2) if e != x), ab2[-1])
+                            menu.append([[t1, ['add', x, True], 0], [t2, ['add', y, False], 0]])
+                    if level == 0:
+                        # quick: the mutation scripts only for filled/filled and cold/cold
+                        if fa != fb:
+                            menu = menu[:2]
+                    for sc in menu:
+                        yield _scripted('script-exh', 'subset', oper, a, b, sc)
+        if A == B:
+            for fa in (False, True):
+                for oper in OPER:
+                    a = _plain(A, fa)
+                    R = spec_elems(oper, A, A)
+                    for sc in ([], hostile_all('r', len(R)) + hostile_all('a', len(A)),
+                               [['a', ['add', 7 if 7 not in A else 0, True], 0]] if len(A) < 8 else []):
+                        yield _scripted('script-exh', 'subset', oper, a, a, sc, same_object=True)
+
+
 def _corpus():
     import glob
     import json
@@ -755,5 +1208,7 @@ def gen(tier, seed, boost=False):
     yield from _corpus()
     lv = _level(tier, boost)
     yield from _targeted(lv)
+    yield from _scripted_exhaustive(lv)
     yield from _random(tier, rng, boost)
+    yield from _scripted_random(tier, random.Random(seed * 1000003 + 2020), boost)
     yield from _product(lv)
